@@ -60,8 +60,8 @@ def jobs(tier):
     for N, stride in plan:
         for k, (kind, rows, locks) in enumerate(shapes(N)):
             if k % stride == 0:
-                if N >= 4 and kind != "sh" and not any(locks):
-                    # the fully idle N = 4 state with symbolic wire-fencing weights needs the 5x5 symbolic permanent identity:
+                if N >= 4 and kind != "sh" and sum(1 for x in locks if not x) >= 5:
+                    # the fully idle N = 4 state ([0-] and all four plus ensembles idle) with symbolic wire-fencing weights needs the 5x5 symbolic permanent identity:
                     # beyond the solver (minutes, > 10 GB per shape) -- NOT decided, stated in BOUNDS
                     continue
                 all_shapes.append((N, kind, rows, locks))
